@@ -232,6 +232,11 @@ func (e *Exec) globalVar(st *State, o *types.Var) Term {
 	if !e.declared[name] {
 		e.declare(name, s)
 		e.assumeGlobal(e.rangeFact(Term{name, s}, o.Type()))
+		if isInterface(o.Type()) && namedName(o.Type()) == "error" {
+			// package-level error values (errors.New / fmt.Errorf initialisers) are non-nil
+			e.assumeGlobal(Not(Eq(CKind(Term{name, s}), IntLit(0))))
+			e.note("global", "package-level error variables are non-nil")
+		}
 		e.assumeGlobal(e.allocFact(Term{name, s}, o.Type(), e.alloc0))
 		e.note("global", fmt.Sprintf("package variable %s.%s read as an arbitrary constant", o.Pkg().Name(), o.Name()))
 	}
